@@ -162,6 +162,18 @@ def negate(test):
     return ast.copy_location(ast.UnaryOp(op=ast.Not(), operand=test), test)
 
 
+def _negative(test):
+    """A test written in negative form whose negation can be written without `not`."""
+    if isinstance(test, ast.UnaryOp) and isinstance(test.op, ast.Not):
+        return True
+    if isinstance(test, ast.Compare) and len(test.ops) == 1:
+        if isinstance(test.ops[0], (ast.NotEq, ast.IsNot, ast.NotIn)):
+            return True
+        if isinstance(test.ops[0], (ast.GtE, ast.LtE)) and any(_is_intlike(x) for x in (test.left, test.comparators[0])):
+            return True
+    return False
+
+
 def _is_intlike(e):
     if isinstance(e, ast.Constant) and isinstance(e.value, int) and not isinstance(e.value, bool):
         return True
@@ -420,8 +432,13 @@ class FuncCanon(object):
             if not isinstance(st, ast.If):
                 continue
             t = st.test
-            if isinstance(t, ast.UnaryOp) and isinstance(t.op, ast.Not) and st.orelse and st.body:
-                st.test, st.body, st.orelse = t.operand, st.orelse, st.body
+            # not (a != b)  ->  a == b
+            if isinstance(t, ast.UnaryOp) and isinstance(t.op, ast.Not) and isinstance(t.operand, ast.Compare) and not isinstance(negate(t.operand), ast.UnaryOp):
+                st.test = negate(t.operand)
+                self.bump("NOT")
+                return True
+            if _negative(t) and st.orelse and st.body and not always_exits(st.body) and not always_exits(st.orelse):
+                st.test, st.body, st.orelse = negate(t), st.orelse, st.body
                 self.bump("NOT")
                 return True
             if st.orelse and always_exits(st.body):
@@ -436,18 +453,19 @@ class FuncCanon(object):
                 self.bump("ELSE")
                 return True
             rest = blk[i + 1:]
-            if not st.orelse and always_exits(st.body) and rest and always_exits(rest) and _size(rest) < _size(st.body):
-                # both arms leave: the smaller one becomes the guard clause
+            if not st.orelse and always_exits(st.body) and rest and always_exits(rest) and _negative(t):
+                # both arms leave: the test is written in its positive form
                 body = st.body
                 st.test, st.body = negate(st.test), rest
                 blk[i + 1:] = body
                 self.bump("GUARD")
                 return True
-            # IFEXP on inliner temporaries
+            # IFASSIGN: both arms assign the same name once
             if (len(st.body) == 1 and len(st.orelse) == 1 and isinstance(st.body[0], ast.Assign) and isinstance(st.orelse[0], ast.Assign)
                     and len(st.body[0].targets) == 1 and len(st.orelse[0].targets) == 1
                     and isinstance(st.body[0].targets[0], ast.Name) and isinstance(st.orelse[0].targets[0], ast.Name)
-                    and st.body[0].targets[0].id == st.orelse[0].targets[0].id and st.body[0].targets[0].id in self.fresh):
+                    and st.body[0].targets[0].id == st.orelse[0].targets[0].id
+                    and not any(isinstance(n, (ast.Yield, ast.YieldFrom)) for a_ in (st.body[0], st.orelse[0]) for n in ast.walk(a_))):
                 v = st.body[0].targets[0]
                 new = ast.Assign(targets=[v], value=ast.IfExp(test=st.test, body=st.body[0].value, orelse=st.orelse[0].value))
                 ast.copy_location(new, st)
@@ -455,11 +473,15 @@ class FuncCanon(object):
                 blk[i] = new
                 self.bump("IFEXP")
                 return True
-        # conditional expressions with a negated test
+        # conditional expressions / loop tests with a negated test
         for st in blk:
             for n in self._own_exprs(st):
-                if isinstance(n, ast.IfExp) and isinstance(n.test, ast.UnaryOp) and isinstance(n.test.op, ast.Not):
-                    n.test, n.body, n.orelse = n.test.operand, n.orelse, n.body
+                if isinstance(n, ast.IfExp) and _negative(n.test):
+                    n.test, n.body, n.orelse = negate(n.test), n.orelse, n.body
+                    self.bump("NOT")
+                    return True
+                if isinstance(n, ast.UnaryOp) and isinstance(n.op, ast.Not) and isinstance(n.operand, ast.Compare) and not isinstance(negate(n.operand), ast.UnaryOp):
+                    _replace_node(st, n, negate(n.operand))
                     self.bump("NOT")
                     return True
         return False
